@@ -367,6 +367,9 @@ pub fn c15(ctx: &CheckCtx) -> CheckResult {
             )
         })
         .collect();
+    let mut items = items;
+    // releases of unrelated tasks feeding acquisitions of several permits
+    items.push(("sem", "clocks", Mode { clock_check: true, clock_all_targets: ctx.tier.is_thorough(), max_execs: 50_000, ..Mode::default() }));
     run_e2(ctx, &mut res, &items, &[VKind::Other("Clock".into()), VKind::Abort], if ctx.tier.is_thorough() { 1500.0 } else { 50.0 });
     if let Some(v) = res.coverage.remove("scheduling_decisions") {
         res.coverage.insert("must_edges_checked".into(), v);
